@@ -7,6 +7,7 @@ each split transition must replace exactly one piece by its two exact de Castelj
 (midpoint splits of small integers are dyadic rationals, exact in binary floating point).
 """
 import itertools
+import math
 import types
 from fractions import Fraction as F
 
@@ -197,7 +198,10 @@ def long_node_lists():
     return out
 
 
-SCALE, SHIFT = 1 << 16, (1 << 20, -(1 << 21))
+# (scale, shift): a big copy, and the *same-sized* curve two thousand million units from the
+# origin - there every coordinate-relative notion of "equal" (math.isclose, 1e-9 * |x|) is
+# coarser than the curve itself, while all the arithmetic that matters stays exact
+SIMILARITIES = [(1 << 16, (1 << 20, -(1 << 21))), (1, (1 << 31, -(1 << 30)))]
 
 
 def transformed(nodes, scale, shift):
@@ -211,23 +215,34 @@ def check_similarity(nodes, flat):
     transformed result - same number of nodes, same points.  Large coordinates are where a
     numerically careless flatness test loses its digits."""
     plot_utils = _lib()
-    base = [[list(h_in), list(pt), list(h_out)] for (h_in, pt, h_out) in nodes]
-    big = [[list(p) for p in node] for node in transformed(nodes, SCALE, SHIFT)]
-    try:
-        with core.watchdog(10.0):
-            plot_utils.subdivideCubicPath(base, flat)
-            plot_utils.subdivideCubicPath(big, flat * SCALE)
-    except core.CaseTimeout:
-        return [("loop", f"subdivideCubicPath on {nodes} x {SCALE} + {SHIFT} did not return")]
-    except Exception as exc:                # pylint: disable=broad-except
-        return [("raise", f"subdivideCubicPath on {nodes} x {SCALE} + {SHIFT} raised {exc!r}")]
-    want = snapshot([[list(p) for p in node] for node in transformed(
-        tuple(tuple(tuple(p) for p in node) for node in base), SCALE, SHIFT)])
-    if snapshot(big) != want:
-        return [("similarity", f"subdivideCubicPath({[tuple(map(tuple, n)) for n in nodes]}, {flat}) "
-                 f"gives {len(base)} nodes; the same curve scaled by {SCALE} and shifted by {SHIFT} "
-                 f"with flatness {flat * SCALE} gives {len(big)} nodes that are not its image")]
-    return []
+    out = []
+    for scale, shift in SIMILARITIES:
+        base = [[list(h_in), list(pt), list(h_out)] for (h_in, pt, h_out) in nodes]
+        big = [[list(p) for p in node] for node in transformed(nodes, scale, shift)]
+        try:
+            with core.watchdog(10.0):
+                plot_utils.subdivideCubicPath(base, flat)
+                plot_utils.subdivideCubicPath(big, flat * scale)
+        except core.CaseTimeout:
+            return [("loop", f"subdivideCubicPath on {nodes} x {scale} + {shift} did not return")]
+        except Exception as exc:            # pylint: disable=broad-except
+            return [("raise", f"subdivideCubicPath on {nodes} x {scale} + {shift} raised {exc!r}")]
+        want = snapshot([[list(p) for p in node] for node in transformed(
+            tuple(tuple(tuple(p) for p in node) for node in base), scale, shift)])
+        got = snapshot(big)
+        # same nodes; positions to within 64 units in the last place of the largest coordinate
+        # (an implementation is not obliged to be exact to the bit that far out)
+        room = 64 * math.ulp(float(max(abs(v) for node in want for pt in node for v in pt)))
+        same = len(got) == len(want) and all(
+            abs(a - b) <= room for g_n, w_n in zip(got, want) for g_p, w_p in zip(g_n, w_n)
+            for a, b in zip(g_p, w_p))
+        if not same:
+            out.append(("similarity", f"subdivideCubicPath({[tuple(map(tuple, n)) for n in nodes]}, "
+                        f"{flat}) gives {len(base)} nodes; the same curve scaled by {scale} and "
+                        f"shifted by {shift} with flatness {flat * scale} gives {len(big)} nodes "
+                        f"that are not its image"))
+            break
+    return out
 
 
 def _similar_chunk(args):
@@ -240,8 +255,8 @@ def _similar_chunk(args):
                 part.violation(f"{clause}:sim:{item}:{flat}", msg,
                                {"kind": "similar", "nodes": [[list(p) for p in n] for n in nodes],
                                 "flat": flat})
-            part.count("calls", 2)
-            part.count("similarity_cases")
+            part.count("calls", 2 * len(SIMILARITIES))
+            part.count("similarity_cases", len(SIMILARITIES))
     return part
 
 
@@ -310,7 +325,7 @@ def run(ctx):
                 f"{flats}; two-piece node lists over a 5-point sub-lattice (5^7, every 9th in "
                 "quick); the one-piece curves again with points given as tuples (flatness 0.3, 1.0); "
                 "empty and single-node lists; six chained lists of 10..60 nodes; every 5th "
-                "(thorough: every) one-piece curve again scaled by 2^16 and shifted by (2^20, "
+                "(thorough: every) one-piece curve again unscaled but shifted by (2^31, -2^30), and scaled by 2^16 and shifted by (2^20, "
                 "-2^21), which must give the image of the unscaled result; states = node lists observed after every "
                 "split; non-trivial = calls that split at least once; all inputs distinct",
         "samples": core.rotate(part.samples, ctx.seed, 4),
